@@ -143,6 +143,7 @@ struct State {
     class_samples: BTreeMap<String, Value>,
     extra_samples: Vec<Value>,
     violations_total: u64,
+    violation_classes: BTreeMap<String, u64>,
     violations: Vec<ViolationRec>,
     known_hits: BTreeMap<usize, u64>,
     subs: BTreeMap<String, SubStat>,
@@ -477,6 +478,7 @@ impl Run {
         }
         let mut st = self.state.lock().unwrap();
         st.violations_total += 1;
+        *st.violation_classes.entry(format!("{sub}/{class}")).or_default() += 1;
         st.subs.entry(sub.into()).or_default().violations += 1;
         let same_class = st.violations.iter().filter(|v| v.sub == sub && v.message.split(':').next() == Some(class.as_str())).count();
         if st.violations.len() < 8 && same_class < 2 && !self.is_replay() {
@@ -754,6 +756,7 @@ impl Run {
             .map(|(i, n)| format!("KNOWN-FINDING: property={} {} [class={} hits={}]", self.id, self.known[*i].what, self.known[*i].class, n))
             .collect();
         cov.insert("known_findings_observed".into(), json!(known_lines));
+        cov.insert("violation_classes".into(), json!(st.violation_classes));
         for (k, v) in &st.extra {
             cov.insert(k.clone(), v.clone());
         }
@@ -783,6 +786,9 @@ impl Run {
         for v in &st.violations {
             println!("VIOLATION property={} replay={}", self.id, v.replay);
             println!("  sub={} {}", v.sub, v.message.chars().take(600).collect::<String>());
+        }
+        if !st.violation_classes.is_empty() {
+            println!("violation classes: {:?}", st.violation_classes);
         }
         println!(
             "{} {} evaluations={} distinct_nontrivial={} outcomes={} states={} transitions={} violations={} exhaustive={} wall={:.1}s",
